@@ -51,6 +51,38 @@ def generated_sources(ctx, base, n):
     return out
 
 
+def process_sources(ctx, n):
+    """Concurrent program shapes (spawn / send / select with several receive types / await):
+    their functions carry receive types, process types and closures that the sequential corpus
+    hardly has; they matter for tree-shaking and merging."""
+    out = []
+    rng = ctx.rng
+    try:
+        from vplib import simlib
+        tmpl = [getattr(simlib, t) for t in dir(simlib) if t.startswith("t_") and t != "t_resource_handoff"]
+    except Exception:
+        tmpl = []
+    for i in range(n):
+        k = rng.randrange(4)
+        if k == 0 or not tmpl:
+            # a server with several differently-typed receives in separate selects
+            names = rng.sample(["Ping", "Pong", "Put", "Get", "Tick", "Stop"], rng.randint(2, 3))
+            tys = [rng.choice(["'int", "'bin", "['int, 'int]", "[]"]) for _ in names]
+            recvs = ", ".join("%s = !#%s[%s]" % (chr(97 + j), nm, ty) for j, (nm, ty) in enumerate(zip(names, tys)))
+            vals = {"'int": "3", "'bin": "0x01", "['int, 'int]": "[1, 2]", "[]": "[]"}
+            sends = ", ".join("%s[%s] p" % (nm, vals[ty]) for nm, ty in zip(names, tys))
+            imp = rng.choice(["three = [1, 2] %num.add, ", "l = %list.new, ", ""])
+            out.append(("gen:proc-server", "%sserver = #{ %s, [%s] }, p = @server, %s, !p" % (
+                imp, recvs, ", ".join(chr(97 + j) for j in range(len(names))), sends)))
+        else:
+            try:
+                t = rng.choice(tmpl)(rng)
+                out.append(("gen:proc-%s" % t.get("name", "t"), t["src"]))
+            except Exception:
+                continue
+    return out
+
+
 def run(ctx):
     ok = ctx.coq_props()
     qc = ctx.harness("qv_compile")
@@ -60,6 +92,7 @@ def run(ctx):
     base = testsrc.all_sources()
     base += [("std:%s" % m, "%" + m) for m in ("bin", "dict", "int", "iter", "list", "num", "path", "range", "ref", "str", "vec")]
     gen = generated_sources(ctx, base, ctx.n(600, 20000))   # mutations of repository sources only
+    gen += process_sources(ctx, ctx.n(120, 3000))
     import os
     from vplib.common import VERIF
     cp = os.path.join(VERIF, "corpus", "c07_sources.txt")
